@@ -106,3 +106,10 @@ claimed["C14"] = (
     "inlining is only defined for non-recursive graphs; namespaced references are not generated directly under a one-of; external namespace objects have no references of their own",
     "DESIGN.md §3 C14",
 )
+claimed["C09"] = (
+    "exploration",
+    "runtime metamorphic monitor: describe -> rebuild -> describe fixed point over direct / CBOR / YAML legs and a real ATP hello; behavioural differential between original and rebuilt schema on generated inputs",
+    "Generated scopes using every feature the meta-schema has an entry for, a one-per-constructor matrix for the rest, and whole plugin schemas (steps, several outputs, signal handlers and emitters with their own data scopes) are described with SelfSerialize; the description is passed directly, through CBOR and through YAML into UnserializeScope (+ApplySelf) / UnserializeSchema, and through RunATPServer <-> Client.ReadSchema over chunking pipes; the rebuilt schema must describe itself identically and accept / reject / (map-based) unserialize generated inputs like the original, for every step input, output and signal data schema. Nine known findings: constructors whose schemas cannot be described.",
+    "rebuilding a scope includes ApplySelf; struct-mapped objects are rebuilt map-based, so only their acceptance is compared",
+    "DESIGN.md §3 C09",
+)
